@@ -16,8 +16,9 @@ def run(chk, replay=None):
         "are produced by untrusted Python generators and TLC re-derives every expected value from the bytes; buffers "
         "whose embedded lengths are not honest are skipped (counted as unjudged)",
         "not judged: REPORT PRIORITY descriptors beyond the header; READ CD is judged for the selections F8h / 10h / 20h on CD-DA, Mode 1, Mode 2 "
-        "formless and Mode 2 form 1 sectors with every C2 / sub-channel selection (Mode 2 form 2 and the other "
-        "selection codes are not judged: sizes not reconstructed with certainty)",
+        "formless and Mode 2 form 1 sectors and for the contiguous runs of SYNC / header / sub-header / user data / EDC-ECC "
+        "of Mode 1 (7), Mode 2 formless (4) and Mode 2 form 1 (9), with every C2 / sub-channel selection (Mode 2 form 2 is "
+        "not judged: sizes not reconstructed with certainty)",
         "descriptor counts 0..3, slack 0/1/7 bytes",
     ]
     if replay is not None:
@@ -71,7 +72,7 @@ def run(chk, replay=None):
     from ..core.values import flatten
     K = mod("pyscsi.pyscsi.scsi_cdb_readcd").ReadCd
     for est in (1, 2, 3, 4):
-        for mcsb in (0x1F, 0x02, 0x04) + ((8, 10, 12, 14, 30, 15, 3, 11, 28) if est == 4 else ()):
+        for mcsb in (0x1F, 0x02, 0x04) + {4: (8, 10, 12, 14, 30, 15, 3, 11, 28), 2: (6, 7, 20, 22, 23, 3, 16), 3: (6, 20, 22, 16)}.get(est, ()):
             for c2ei in (0, 1, 2):
                 for scsb in (0, 2, 4):
                     for tl in ((1, 2) if chk.quick else (1, 2, 3)):
